@@ -16,7 +16,8 @@ def jax_setup():
     global _jax_ready
     if not _jax_ready:
         import jax
-        jax.config.update("jax_enable_x64", True)
+        if os.environ.get("VERIF_C19_F32") != "1":   # the float32 child session of the C19 check stays in default precision
+            jax.config.update("jax_enable_x64", True)
         _jax_ready = True
 
 
